@@ -1,6 +1,7 @@
 import PyGam.Proofs.Links
 import PyGam.Proofs.XR
 import PyGam.Gen.Tables
+import PyGam.Gen.Formulas
 /-!
 # C07 — link functions are monotone bijections with the stated inverse and derivative;
 # targets outside the link's domain are rejected
@@ -311,5 +312,53 @@ theorem gen_link_names :
   have h2 : Gen.linkNames = some ["identity", "inv_squared", "inverse", "log", "logit"] := rfl
   rw [h2] at h; cases h
   decide
+
+/-! ### tie to the source by translation of the formulas (`gen_formula_*`)
+
+`Gen/Formulas.lean` is regenerated on every run from the abstract syntax tree of `pygam/links.py`: one definition per
+`link` / `mu` / `gradient` method of the five link classes registered in `LINKS` (`x ** -1.0, -2.0, -3.0, -0.5` written
+`1/x`, `1/(x*x)`, `1/(x*x*x)`, `1/sqrt x` as documented in `Model/Links.lean`; `np.asarray(·, dtype=…)` the identity;
+`getattr(dist, 'levels', 1)` the parameter `levels`).  Each theorem states that the generated definition IS the
+hand-written model function of that link, for every type carrying the notation classes; all fifteen hold by `rfl`
+(the model mirrors the source literally), so any change of a formula in the source — a dropped `levels`, `-2` for `-3`,
+a swapped sign — breaks the corresponding theorem at `lake build`. -/
+section gen_formulas
+set_option linter.unusedSectionVars false
+variable {α : Type} [One α] [Add α] [Sub α] [Mul α] [Div α] [Neg α] [ExpLog α]
+
+/-- `IdentityLink.link` is `linkFn identity` -/
+theorem gen_formula_link_identity : (Gen.link_identity : α → α → α) = linkFn identity := rfl
+/-- `LogLink.link` is `linkFn log` -/
+theorem gen_formula_link_log : (Gen.link_log : α → α → α) = linkFn LinkKind.log := rfl
+/-- `LogitLink.link` is `linkFn logit` -/
+theorem gen_formula_link_logit : (Gen.link_logit : α → α → α) = linkFn logit := rfl
+/-- `InverseLink.link` is `linkFn inverse` -/
+theorem gen_formula_link_inverse : (Gen.link_inverse : α → α → α) = linkFn inverse := rfl
+/-- `InvSquaredLink.link` is `linkFn invSquared` -/
+theorem gen_formula_link_invSquared : (Gen.link_invSquared : α → α → α) = linkFn invSquared := rfl
+
+/-- `IdentityLink.mu` is `linkInv identity` -/
+theorem gen_formula_linkInv_identity : (Gen.linkInv_identity : α → α → α) = linkInv identity := rfl
+/-- `LogLink.mu` is `linkInv log` -/
+theorem gen_formula_linkInv_log : (Gen.linkInv_log : α → α → α) = linkInv LinkKind.log := rfl
+/-- `LogitLink.mu` is `linkInv logit` -/
+theorem gen_formula_linkInv_logit : (Gen.linkInv_logit : α → α → α) = linkInv logit := rfl
+/-- `InverseLink.mu` is `linkInv inverse` -/
+theorem gen_formula_linkInv_inverse : (Gen.linkInv_inverse : α → α → α) = linkInv inverse := rfl
+/-- `InvSquaredLink.mu` is `linkInv invSquared` -/
+theorem gen_formula_linkInv_invSquared : (Gen.linkInv_invSquared : α → α → α) = linkInv invSquared := rfl
+
+/-- `IdentityLink.gradient` is `linkGrad identity` -/
+theorem gen_formula_linkGrad_identity : (Gen.linkGrad_identity : α → α → α) = linkGrad identity := rfl
+/-- `LogLink.gradient` is `linkGrad log` -/
+theorem gen_formula_linkGrad_log : (Gen.linkGrad_log : α → α → α) = linkGrad LinkKind.log := rfl
+/-- `LogitLink.gradient` is `linkGrad logit` -/
+theorem gen_formula_linkGrad_logit : (Gen.linkGrad_logit : α → α → α) = linkGrad logit := rfl
+/-- `InverseLink.gradient` is `linkGrad inverse` -/
+theorem gen_formula_linkGrad_inverse : (Gen.linkGrad_inverse : α → α → α) = linkGrad inverse := rfl
+/-- `InvSquaredLink.gradient` is `linkGrad invSquared` -/
+theorem gen_formula_linkGrad_invSquared : (Gen.linkGrad_invSquared : α → α → α) = linkGrad invSquared := rfl
+
+end gen_formulas
 
 end PyGam.C07
